@@ -246,8 +246,9 @@ class _:
         if spelling == 'setitem':
             if kw or t is not None or cast: raise Unsupported('setitem kwargs')
             b = a.copy(); b[idx if not (isinstance(idx, tuple) and len(idx) == 1) else idx[0]] = v; return b
-        if spelling in ('put', 'put_pos'):
+        if spelling in ('put', 'put_pos', 'put_bc'):
             if spelling == 'put_pos': kw['indexing'] = 'position'
+            if spelling == 'put_bc': kw['broadcast'] = True      # at most one indexed dimension: the same cells as orthogonally
             if inplace:
                 b = a.copy(); r = b.put(idx, v, tol=t, cast=cast, inplace=True, **kw)
                 if r is not None: raise AssertionError('put(inplace=True) returned a value')
